@@ -132,3 +132,9 @@ def run(eng, tier):
         'trusted_base': ['semver matching folded on literal x.y.z versions only (L-sem)', 'interpreter models'],
         'not_decided': ['behaviour on storage that violates the schema', 'pre-release / build-metadata version strings are not folded (the gate operand must be the parsed stored version itself)'], 'assumptions': [],
     }
+
+import probes as _pb
+PROBES = [
+    _pb.drop_facts('migrate', None, 'semver_matches((semver_req(">=0.16.2")'),
+    _pb.drop_write('migrate', None, 'version_info'),
+]
